@@ -1,13 +1,300 @@
-"""C19 -- placeholder until the check is built"""
+"""C19 -- calibration files and simulation output describe the same problem"""
+
+import gc
+import os
+import sqlite3
+
+from .. import core, curves_common, data, gen_params, gen_planted, pest
+
 PROPERTY = 'C19'
 LEVEL = 'exploration'
-SHARDS = {'quick': 1, 'thorough': 1}
-RULE = 'not built yet'
+SHARDS = {'quick': 4, 'thorough': 16}
+RULE = (
+    'Planted / noisy datasets (both master curves assembled, curvature set; 5-400 levels) x both parameterisations '
+    '(spline with 4-9 specific-yield knots and 2-7 conductivity knots, random values printed with up to 17 '
+    'significant digits; PEATCLSM inside the PEST bounds) x {rise, curves}: `spowtd pestfiles ... tpl|ins|pst` and '
+    '`spowtd simulate rise|recession [--observations]` are run through the CLI entry point and their texts are '
+    'interpreted by an own mini-interpreter of the PEST formats.  Checked: NPAR/NOBS/NPARGP/NPRIOR/NOBSGP against '
+    'the counted lines; parameter names (case-folded, as PEST does) against the template placeholders in order; the '
+    'k-th observation text parses to the bit-identical measured value of the k-th row of the simulator\'s table; the '
+    'value the instruction file extracts for e_k from the concatenated --observations output equals the simulated '
+    'value of row k; the template filled with the original values loads to the original parameters.  A targeted '
+    'family chooses a constant specific yield such that a simulated storage falls in (-1e-3, 0) (the class of the '
+    'recorded finding).  Non-trivial: >= 10 rise and >= 10 recession observations; distinct by (dataset, parameter '
+    'file).'
+)
+ASSUMPTIONS = [
+    'PEST semantics as implemented in spowtd_verif/pest.py (fixed-column reads are 1-based and inclusive; parameter names are case-insensitive)',
+    'a filled parameter value is written the way PyYAML prints a float (shortest round-trip repr with a decimal point)',
+]
+SIZES = {'quick': dict(ds=12, targeted=2), 'thorough': dict(ds=400, targeted=32)}
+REQUIRED = {
+    tier: {
+        'file-sets-checked': 16,
+        'control-file-counts-checked': 16,
+        'observations-compared-bit-for-bit': 500,
+        'extracted-values-compared': 500,
+        'template-round-trips': 16,
+        'kind:spline/rise': 2, 'kind:spline/curves': 2, 'kind:peatclsm/rise': 2, 'kind:peatclsm/curves': 2,
+        'targeted-datasets': 1,
+    }
+    for tier in ('quick', 'thorough')
+}
+MIN_NONTRIVIAL = {'quick': 8, 'thorough': 300}
+
+
+def yaml_float(v):
+    if isinstance(v, int):
+        return str(v)
+    t = repr(float(v)).lower()
+    if '.' not in t and 'e' in t:
+        t = t.replace('e', '.0e', 1)
+    return t
+
+
+def run_cli_to_text(ctx, argv, name):
+    out = os.path.join(ctx.workdir, name)
+    status, exc = data.cli(list(argv) + ['-o', out])
+    gc.collect()
+    if exc is not None or status != 0:
+        return None, (core.describe_exception(exc) if exc else {'status': status})
+    with open(out, newline='') as f:
+        return f.read(), None
+
+
+def parameter_values(params):
+    """{lower-case placeholder name: original value}"""
+    vals = {}
+    sy, T = params['specific_yield'], params['transmissivity']
+    if sy['type'] == 'spline':
+        for i, v in enumerate(sy['sy_knots']):
+            vals['sy_knot_{}'.format(i + 1)] = v
+    else:
+        for k in ('sd', 'theta_s', 'b', 'psi_s'):
+            vals[k] = sy[k]
+    if T['type'] == 'spline':
+        for i, v in enumerate(T['K_knots_km_d']):
+            vals['k_knot_{}'.format(i + 1)] = v
+        vals['t_min'] = T['minimum_transmissivity_m2_d']
+    else:
+        for k in ('Ksmacz0', 'alpha'):
+            vals[k.lower()] = T[k]
+    return vals
+
+
+def check_file_set(ctx, db, params, pfile, kind, what, case, tag):
+    """kind: spline / peatclsm; what: rise / curves.  Returns True when the
+    whole set was checked."""
+    import yaml
+
+    rec = ctx.rec
+    rec.case()
+    wcase = dict(case, params=params, what=what)
+    texts = {}
+    for t in ('tpl', 'ins', 'pst'):
+        text, err = run_cli_to_text(ctx, ['pestfiles', what, db, pfile, t], '{}_{}.{}'.format(tag, what, t))
+        if err:
+            rec.violation('pestfiles-fails:' + t, {'exception': err, 'what': what}, wcase, 'pest')
+            return False
+        texts[t] = text.replace('\r\n', '\n')
+    sim_obs = ''
+    table = []
+    for curve in (['rise'] if what == 'rise' else ['rise', 'recession']):
+        o, err = run_cli_to_text(ctx, ['simulate', curve, db, pfile, '--observations'], '{}_{}_obs.yml'.format(tag, curve))
+        if err:
+            rec.violation('simulate-fails', {'exception': err, 'curve': curve}, wcase, 'pest')
+            return False
+        tb, err = run_cli_to_text(ctx, ['simulate', curve, db, pfile], '{}_{}_tab.yml'.format(tag, curve))
+        if err:
+            rec.violation('simulate-fails', {'exception': err, 'curve': curve}, wcase, 'pest')
+            return False
+        sim_obs += o
+        table += [(curve,) + tuple(r) for r in yaml.safe_load(tb)[1:]]
+    rec.hit('kind:{}/{}'.format(kind, what))
+    # ---- control file
+    try:
+        pst = pest.pst_parse(texts['pst'])
+        marker, spaces = pest.tpl_parse(texts['tpl'])
+    except Exception as exc:  # pylint: disable=broad-except
+        rec.violation('generated-file-does-not-parse', {'error': repr(exc)[:300]}, wcase, 'pest')
+        return False
+    counts = {'NPAR': (pst['npar'], len(pst['pars'])), 'NOBS': (pst['nobs'], len(pst['obs'])),
+              'NPARGP': (pst['npargp'], len(pst['groups'])), 'NPRIOR': (pst['nprior'], len(pst['prior'])),
+              'NOBSGP': (pst['nobsgp'], len(pst['obsgroups']))}
+    bad = {k: v for k, v in counts.items() if v[0] != v[1]}
+    if bad:
+        rec.violation('declared-count-differs-from-counted-lines', {'declared_vs_counted': bad, 'what': what, 'kind': kind}, wcase, 'pest')
+        return False
+    if not set(pst['par_groups_used']) <= set(pst['groups']) or not {o[2] for o in pst['obs']} <= set(pst['obsgroups']):
+        rec.violation('group-used-but-not-declared', {'par_groups': pst['groups'], 'used': sorted(set(pst['par_groups_used']))}, wcase, 'pest')
+        return False
+    rec.hit('control-file-counts-checked')
+    names_tpl = [n.lower() for n, _ in spaces]
+    names_pst = [n.lower() for n in pst['pars']]
+    if names_tpl != names_pst:
+        rec.violation('parameter-names-differ-from-template-placeholders', {'template': names_tpl, 'control': names_pst}, wcase, 'pest')
+        return False
+    # ---- observations
+    if len(pst['obs']) != len(table):
+        rec.violation('number-of-observations-differs-from-simulator-rows', {'control': len(pst['obs']), 'simulator_rows': len(table)}, wcase, 'pest')
+        return False
+    for k, ((name, text, grp), row) in enumerate(zip(pst['obs'], table)):
+        if name != 'e{}'.format(k + 1) or float(text) != row[2] or grp != ('storageobs' if row[0] == 'rise' else 'timeobs'):
+            rec.violation('observation-is-not-the-measured-value-of-that-row',
+                          {'k': k + 1, 'name': name, 'text': text, 'group': grp, 'simulator_row': row}, wcase, 'pest')
+            return False
+    rec.hit('observations-compared-bit-for-bit', len(table))
+    # levels: rise ascending, recession from highest to lowest
+    rl = [r[1] for r in table if r[0] == 'rise']
+    cl = [r[1] for r in table if r[0] == 'recession']
+    if rl != sorted(rl) or cl != sorted(cl, reverse=True):
+        rec.violation('simulator-rows-not-in-the-documented-order', {'rise_levels': rl[:5], 'recession_levels': cl[:5]}, wcase, 'pest')
+        return False
+    # ---- instruction file applied to the simulator's --observations output
+    try:
+        vals, where = pest.ins_apply(texts['ins'], sim_obs)
+    except Exception as exc:  # pylint: disable=broad-except
+        rec.violation('instruction-file-cannot-be-applied', {'error': repr(exc)[:300]}, wcase, 'pest')
+        return False
+    if sorted(vals, key=lambda n: int(n[1:])) != [o[0] for o in pst['obs']]:
+        rec.violation('instruction-file-observations-differ-from-control-file', {'ins': len(vals), 'pst': len(pst['obs'])}, wcase, 'pest')
+        return False
+    ok = True
+    for k, row in enumerate(table):
+        name = 'e{}'.format(k + 1)
+        if vals[name] != row[3]:
+            line, a, b = where[name]
+            w = {'observation': name, 'extracted': vals[name], 'simulated': row[3], 'output_line': line, 'columns': [a, b], 'what': what, 'kind': kind}
+            # classifier: the printed value is wider than the field the instruction reads
+            key = 'ins-field-narrower-than-value' if len(line) > b and float(line[a - 1:]) == row[3] else 'instruction-file-extracts-a-different-value'
+            rec.violation(key, w, wcase, 'pest')
+            ok = False
+            break
+    if ok:
+        rec.hit('extracted-values-compared', len(table))
+    # ---- template round trip
+    original = yaml.safe_load(open(pfile))
+    try:
+        filled = pest.tpl_fill(texts['tpl'], {k: v for k, v in parameter_values(original).items()}, yaml_float)
+        loaded = yaml.safe_load(filled)
+    except Exception as exc:  # pylint: disable=broad-except
+        rec.violation('template-cannot-be-filled', {'error': repr(exc)[:300]}, wcase, 'pest')
+        return False
+    if loaded != original:
+        rec.violation('filled-template-differs-from-the-original-parameters', {'filled': loaded, 'original': original}, wcase, 'pest')
+        return False
+    rec.hit('template-round-trips')
+    rec.hit('file-sets-checked')
+    n_rise = sum(1 for r in table if r[0] == 'rise')
+    n_rec = len(table) - n_rise
+    if what == 'curves' and n_rise >= 10 and n_rec >= 10:
+        rec.mark_nontrivial(core.digest((case['rain'][:40], case['z'][:20], params)))
+        if len(rec.samples) < 2:
+            rec.sample({'kind': kind, 'what': what, 'control_counts': {k: v[0] for k, v in counts.items()}, 'parameters': names_pst,
+                        'first_observations': pst['obs'][:3], 'first_simulator_rows': table[:3],
+                        'first_output_lines': sim_obs.split('\n')[:4]})
+    return ok
+
+
+def random_params(rng, kind, zlo, zhi):
+    if kind == 'spline':
+        n = rng.randint(4, 9)
+        m = rng.randint(2, 7)
+        psy = {'type': 'spline', 'zeta_knots_mm': sorted(round(rng.uniform(zlo - 100, zhi + 50), rng.choice([1, 2, 4])) for _ in range(n)),
+               'sy_knots': [rng.choice([round(rng.uniform(0.01, 1.0), 4), rng.uniform(0.01, 1.0)]) for _ in range(n)]}
+        while len(set(psy['zeta_knots_mm'])) < n:
+            psy['zeta_knots_mm'] = sorted(round(rng.uniform(zlo - 100, zhi + 50), 3) for _ in range(n))
+        zk = sorted(rng.uniform(zlo - 200, zhi + 500) for _ in range(m))
+        zk[-1] = max(zk[-1], zhi + 10.0)
+        zk = sorted(set(round(v, 3) for v in zk))
+        if len(zk) < 2:
+            zk = [zlo - 50.0, zhi + 50.0]
+        pT = {'type': 'spline', 'zeta_knots_mm': zk, 'K_knots_km_d': [rng.choice([10 ** rng.uniform(-4, 4), round(10 ** rng.uniform(-3, 3), 3)]) for _ in zk],
+              'minimum_transmissivity_m2_d': rng.choice([7.442, 10 ** rng.uniform(-3, 2)])}
+        return {'specific_yield': psy, 'transmissivity': pT}
+    return {'specific_yield': gen_params.peatclsm_sy(rng),
+            'transmissivity': {'type': 'peatclsm', 'Ksmacz0': 10 ** rng.uniform(-3, 2), 'alpha': rng.choice([3, 2.5, rng.uniform(1.1, 8)]), 'zeta_max_cm': round(zhi / 10 + rng.choice([1.0, 25.0]), 2)}}
+
+
+def prepare_dataset(ctx, rng, index, planted=True):
+    case = gen_planted.gen(rng) if planted else gen_planted.gen_noisy(rng)
+    db = os.path.join(ctx.workdir, 'k{}.sqlite3'.format(index))
+    err = curves_common.make_curves_db(ctx, case, db, curvature=rng.choice([2.36, 0.5, 1.0]))
+    if err:
+        ctx.rec.hit('dataset-without-both-curves: ' + err)
+        return None, None, None
+    connection = sqlite3.connect(db)
+    levels = [r[0] for r in connection.execute('SELECT zeta_mm FROM average_recession_time UNION SELECT zeta_mm FROM average_rising_depth')]
+    rise = connection.execute('SELECT zeta_mm, mean_crossing_depth_mm FROM average_rising_depth ORDER BY zeta_mm').fetchall()
+    connection.close()
+    return case, db, (min(levels), max(levels), rise)
+
+
+def run_dataset(ctx, rng, index):
+    case, db, info = prepare_dataset(ctx, rng, index, planted=index % 3 != 2)
+    if db is None:
+        return
+    zlo, zhi, _ = info
+    for kind in ('spline', 'peatclsm'):
+        params = random_params(rng, kind, zlo, zhi)
+        pfile = curves_common.write_yaml(os.path.join(ctx.workdir, 'k{}_{}.yml'.format(index, kind)), params)
+        for what in ('rise', 'curves'):
+            check_file_set(ctx, db, params, pfile, kind, what, case, 'k{}_{}'.format(index, kind))
+    os.remove(db)
+
+
+def run_targeted(ctx, rng, index):
+    """Constant specific yield chosen so that one simulated storage value
+    falls just below zero: the printed value then needs 23+ characters"""
+    import numpy as np
+
+    case, db, info = prepare_dataset(ctx, rng, 1000 + index)
+    if db is None:
+        return
+    zlo, zhi, rise = info
+    z = np.array([r[0] for r in rise])
+    m = float(np.mean([r[1] for r in rise]))
+    zbar = float(z.mean())
+    S = None
+    for k in range(len(z)):
+        if abs(z[k] - zbar) < 1e-9:
+            continue
+        cand = float((-m - 3e-5) / (z[k] - zbar))
+        if 0.01 < cand < 1:
+            S = cand
+            break
+    if S is None:
+        ctx.rec.hit('targeted: no admissible constant specific yield for this dataset')
+        os.remove(db)
+        return
+    params = {'specific_yield': {'type': 'spline', 'zeta_knots_mm': [zlo - 1000.0, zlo - 500.0, zhi + 500.0, zhi + 1000.0], 'sy_knots': [S] * 4},
+              'transmissivity': {'type': 'spline', 'zeta_knots_mm': [zlo - 1000.0, zhi + 1000.0], 'K_knots_km_d': [0.01, 1.0], 'minimum_transmissivity_m2_d': 1.0}}
+    pfile = curves_common.write_yaml(os.path.join(ctx.workdir, 'kt{}.yml'.format(index)), params)
+    ctx.rec.hit('targeted-datasets')
+    check_file_set(ctx, db, params, pfile, 'spline', 'rise', case, 'kt{}'.format(index))
+    os.remove(db)
 
 
 def run(ctx):
-    ctx.rec.inconclusive_because('check not built yet')
+    s = SIZES[ctx.tier]
+    rng = ctx.rng('pest')
+    for i in range(ctx.share(s['ds'])):
+        run_dataset(ctx, rng, i)
+    rng = ctx.rng('targeted')
+    for i in range(ctx.share(s['targeted'])):
+        run_targeted(ctx, rng, i)
 
 
 def replay(ctx, case, module=None):
-    ctx.rec.inconclusive_because('check not built yet')
+    params = case.get('params')
+    what = case.get('what', 'rise')
+    if not params:
+        ctx.rec.inconclusive_because('no parameters in the replay file')
+        return
+    db = os.path.join(ctx.workdir, 'replay.sqlite3')
+    err = curves_common.make_curves_db(ctx, case, db, curvature=2.36)
+    if err:
+        ctx.rec.inconclusive_because('dataset could not be rebuilt: ' + err)
+        return
+    pfile = curves_common.write_yaml(os.path.join(ctx.workdir, 'replay.yml'), params)
+    check_file_set(ctx, db, params, pfile, params['specific_yield']['type'], what, case, 'replay')
